@@ -71,19 +71,27 @@ def apply (plus : Bool) (b : Batch) (v : Nat) : Emit :=
     else updateNginxConf plus b v
   | .clusterState => updateNginxConf plus b v
 
+/-- the `NoChange` arm: only the readiness latch may move -/
+def noChangeStep (s : H) : H :=
+  if !s.ready && !s.firstBatchErr then setAsReady s else s
+
+/-- `h.version++` and the code after the switch: `err` decides `firstBatchError` / `setAsReady`
+and becomes `latestReloadResult` -/
+def advance (s : H) (err : Bool) : H :=
+  let s1 := { s with version := s.version + 1 }
+  let s2 :=
+    if err then
+      (if !s1.ready then { s1 with firstBatchErr := true } else s1)
+    else
+      (if !s1.ready then setAsReady s1 else s1)
+  { s2 with lastErr := err }
+
 def hstep (plus : Bool) (s : H) (b : Batch) : H × Emit :=
   match b.ct with
-  | .noChange =>
-    (if !s.ready && !s.firstBatchErr then setAsReady s else s, Emit.none)
+  | .noChange => (noChangeStep s, Emit.none)
   | _ =>
-    let s1 := { s with version := s.version + 1 }
-    let e := apply plus b s1.version
-    let s2 :=
-      if e.err then
-        (if !s1.ready then { s1 with firstBatchErr := true } else s1)
-      else
-        (if !s1.ready then setAsReady s1 else s1)
-    ({ s2 with lastErr := e.err }, e)
+    let e := apply plus b (s.version + 1)
+    (advance s e.err, e)
 
 /-- a batch sequence: final state and what each batch did -/
 def hrun (plus : Bool) : H → List Batch → H × List Emit
